@@ -121,7 +121,9 @@ fn scenario(kind: &str, seed: u64, k: usize, with_trace: bool) -> Result<Run, St
     let now = pre.now;
     let ha2 = ha.clone();
     let a_thread = std::thread::spawn(move || {
-        let r = run_actor(ka, &ha2, seed, 3, now);
+        // A backs up version 0 again: the content of the snapshot whose packs were marked long ago (a backup that
+        // dedups against marked packs would rely on packs the concurrent prune deletes)
+        let r = run_actor(ka, &ha2, seed, 0, now);
         r
     });
     // wait until A is parked (or has finished with fewer than k operations)
